@@ -28,7 +28,15 @@ PROP = {
         "component": "wsconc",
         "quick": {"gen": [(1500, 16)], "enum": [(3,)]},
         "thorough": {"gen": [(20000, 22)], "enum": [(4,)]},
+    }, {
+        # callbacks of a session that follows one whose asynchronous flush never completed (the application dropped the transport
+        # with the write in flight and handshakes again on the same Stream): component of C18, clause "behaves like a fresh one"
+        "component": "wshandshake",
+        "quick": {"gen": [(150, 4)]},
+        "thorough": {"gen": [(1200, 5)]},
+        "timeout": 1500,
     }],
+    "keys": ["wsconc.*", "wshandshake.bytes-after-blank-line"],
     "direct": [{"component": "wsconc", "timeout": 900}],
     "rule": "scripts = one client websocket.Stream attached (hook VerifAttach) to a real sonic.AsyncAdapter over a real loopback TCP "
             "connection whose other end is a std-library connection driven by the harness (independent RFC 6455 encoder for what the peer "
